@@ -5,7 +5,7 @@ from .. import wire as W
 from ..runner import run_monitored
 
 
-def continuation(rng, net, mtu, n, query_first=False):
+def continuation(rng, net, mtu, n, query_first=False, resume=None):
     m = rng.randrange(len(net.mappers))
     must = [G.f_discover(rng, net, m=m, tos=0, gen=0), G.f_discover(rng, net, m=m, tos=0, gen=rng.choice([1, 0xFF00, 0x1234])),
             G.f_discover(rng, net, m=m, tos=1, gen=0), G.f_discover(rng, net, m=m, tos=1, gen=rng.choice([2, 0x00FF])),
@@ -29,6 +29,9 @@ def continuation(rng, net, mtu, n, query_first=False):
         out = [first] + out
         if rng.random() < 0.5:
             out = [rng.choice([G.f_emit(rng, net, (m + 1) % 3, n=2)[0], G.f_query(rng, net, (m + 1) % 3, bridged=True)])] + out
+    if resume is not None:
+        # the new session's mapper resumes a large-property transfer in the middle (it remembers where the last one stopped)
+        out = [G.f_qlt(rng, net, m, typ=resume[0], off=resume[1])] + ([G.f_qlt(rng, net, m, typ=resume[0], off=0)] if rng.random() < 0.5 else []) + out
     if query_first:
         # the first thing the new session's mapper does is ask for observations, then for the icon
         out = [G.f_query(rng, net, m)] + ([G.f_qlt(rng, net, m, typ=0x0E, off=0)] if rng.random() < 0.5 else []) + out
@@ -45,6 +48,7 @@ def make_scenarios(ctx, count):
         glob = G.rand_global(rng, icon_size=rng.choice([0, 1, 300, 2000, 9000]))
         hl = rng.choice([0, 1, 5, 30, 100, 400]) if rng.random() < 0.8 else rng.randint(0, 400)
         style = rng.choice(["session", "flood", "hijack", "noise", "icon"])
+        resume = None
         if style == "icon":
             # a session in which the icon (and other large properties) were fetched; the platform's icon is replaced
             # afterwards, at the latest right before the Reset
@@ -53,6 +57,14 @@ def make_scenarios(ctx, count):
             for _ in range(rng.randint(1, 4)):
                 h.append(G.f_qlt(rng, net, m0, typ=rng.choice([0x0E, 0x0E, 0x11, 0x13]), off=rng.choice([0, 0, 100])))
             h += G.session_history(rng, net, mtu, rng.randint(0, 10), p_mut=0.0)
+            if rng.random() < 0.5:
+                # a friendly name / hardware id longer than one response, its transfer left unfinished before the Reset
+                P = mtu - 34
+                glob["fname"] = W.fill_stream(rng.choice([P + 1, 2 * P + 7, 3 * P]), rng.randint(1, 10 ** 6))
+                typ = 0x11
+                offs = rng.choice([[0], [0, P], [0, P, 0], [P]])
+                h += [G.f_qlt(rng, net, m0, typ=typ, off=o) for o in offs]
+                resume = (typ, rng.choice([P, P, 2 * P, 1]))
         elif style == "flood":
             h = [G.f_discover(rng, net, m=0, tos=0)] + [G.f_probe(rng, net, to_me=True) for _ in range(hl)] + \
                 [G.f_query(rng, net, 0)] * rng.randint(0, 1)
@@ -66,7 +78,8 @@ def make_scenarios(ctx, count):
             h = [G.f_noise(rng, mtu) for _ in range(hl)]
         else:
             h = G.session_history(rng, net, mtu, hl, p_mut=0.2)
-        c = continuation(rng, net, mtu, rng.randint(10, 60), query_first=(style == "icon" and rng.random() < 0.6) or rng.random() < 0.05)
+        c = continuation(rng, net, mtu, rng.randint(10, 60), query_first=(style == "icon" and rng.random() < 0.6) or rng.random() < 0.05,
+                         resume=resume)
         s = H.Scenario("r%d" % i)
         kw = H.iface_kw(cfg)
         s.iface(0, **kw)
